@@ -42,9 +42,11 @@ def _gp(h, n, d, mean, kernel="SE"):
     h.patch(rg, solve_triangular=stubs.solve_triangular, zeros=ozeros)
     h.patch(rg, both=True, cholesky=stubs.make_param_cholesky(h, L, "regression.cholesky"))
     h.covers(rg.GpRegressor.gradient, rg.GpRegressor.spatial_derivatives, cv.SquaredExponential.gradient_terms)
-    spec = {"SE": "SE", "SE+SE+WN": ("sum", ["SE", "SE", "WN"]), "SE+WN": ("sum", ["SE", "WN"])}[kernel]
+    spec = {"SE": "SE", "RQ": "RQ", "SE+SE+WN": ("sum", ["SE", "SE", "WN"]), "SE+WN": ("sum", ["SE", "WN"])}[kernel]
     K = cv.SquaredExponential(hyperpar_bounds=[(-5.0, 5.0)] * (d + 1)) if kernel == "SE" else gc.build_kernel(cv, spec)
     nk = gc.n_params(spec, n, d)
+    if kernel == "RQ":
+        K.bounds = [(-5.0, 5.0)] * (d + 2)
     for comp in getattr(K, "components", []):     # given bounds: the data-driven estimate is not the subject here
         comp.bounds = [(-5.0, 5.0)] * (d + 1 if isinstance(comp, cv.SquaredExponential) else 1)
     M = gc.build_mean(mn, mean)
@@ -192,7 +194,7 @@ def query_points_of_any_numeric_type(h, n, d, form):
     h.eq("predictive mean: integer query points == floats", mu_i, mu_f)
 
 
-@unit("C16", quick=[dict(kernel="SE+SE+WN", n=2, d=1), dict(kernel="SE+WN", n=2, d=1)], thorough=[dict(kernel="SE+SE+WN", n=2, d=2)], cost=4)
+@unit("C16", quick=[dict(kernel="SE+SE+WN", n=2, d=1), dict(kernel="SE+WN", n=2, d=1), dict(kernel="RQ", n=2, d=2)], thorough=[dict(kernel="SE+SE+WN", n=2, d=2)], cost=4)
 def sums_of_kernels_either_decline_or_differentiate_correctly(h, kernel, n, d):
     """derivative predictions with a *sum* of kernels: the library may decline (NotImplementedError, its documented answer
     for kernels without gradient support) -- but if it answers, the answer must be the derivative of the predictive mean and
